@@ -63,6 +63,9 @@ func c13Gen(r *rand.Rand, tier string) any {
 					real.Fail = append(real.Fail, t.label())
 				}
 			}
+		} else if i < n-1 && r.IntN(5) == 0 {
+			// the real build is interrupted: the dry runs that follow see a half-recorded state
+			real.CrashAt = 1 + r.IntN(600)
 		}
 		sc.Ops = append(sc.Ops, real)
 	}
@@ -133,6 +136,9 @@ func runHistory(c *simcheck.Ctx, sc *histScenario, prefix string, skip func(i in
 			}
 			first = false
 			starts[i] = nil
+			if crashHook != nil {
+				crashHook()
+			}
 			continue
 		}
 		if v := procFailure(res); v != nil {
@@ -249,7 +255,8 @@ func c13Exec(scAny any, c *simcheck.Ctx) *simcheck.Violation {
 	}
 	// the tree hash is taken right after the dry run's load: hook through buildOpts
 	hashHook = func(h *world) { before = treeHash(h.root, nil) }
-	defer func() { hashHook = nil }()
+	crashHook = func() { dryEval = nil }
+	defer func() { hashHook, crashHook = nil, nil }()
 	withDry, outsA, v, okA := runHistory(c, sc, "", nil, each)
 	if v != nil {
 		return v
@@ -259,14 +266,19 @@ func c13Exec(scAny any, c *simcheck.Ctx) *simcheck.Violation {
 		return nil
 	}
 	// twin: the same history without the dry runs executes identically
+	// (a dry run becomes a load without a run: loading legitimately writes - the state
+	// directories, index.json - and an interrupted build that follows is placed by step count)
 	twin := sc.clone()
 	for i := range twin.Ops {
 		twin.Ops[i].DryNil = false
+		if twin.Ops[i].Op == "build" && twin.Ops[i].Dry {
+			twin.Ops[i] = opSpec{Op: "load-only"}
+		}
 	}
 	// the twin replays exactly the choices the first run consumed, operation by operation
 	saved := c.Tapes
 	c.Tapes = simrt.NewTapeSet(saved.Seed, saved.Snapshot())
-	without, outsB, v, okB := runHistory(c, twin, "", func(i int, op *opSpec) bool { return op.Op == "build" && op.Dry }, nil)
+	without, outsB, v, okB := runHistory(c, twin, "", nil, nil)
 	c.Tapes = saved
 	if v != nil || !okB {
 		return v
@@ -330,6 +342,9 @@ func sourceLabelOf(p *projSpec, t *targetSpec, s string) string {
 	}
 	return "source://" + dir + ":" + name
 }
+
+// crashHook, if set, is told about every interrupted build of a history.
+var crashHook func()
 
 // ioErrOps makes runHistory inject an I/O error at operation op.N of a build (C18).
 var ioErrOps bool
